@@ -2,11 +2,13 @@
    tree_is_runs ("in every reachable state the free-extent tree lists exactly the maximal zero runs of the bitmap")
    is FALSE of the model of src/fs/iwfsmfile.c as it is (C11_tree_is_runs_refuted, witness replayed on the real code by
    corpus/C11/lfbk-stale-cache.txt) and is proved for the model of the code after fixes/fsm-lfbk.diff
-   (C11_tree_is_runs_partial; _partial: histories in which the bitmap does not grow/move, see Properties_C10.v).
-   The relocation step itself is proved (C11_relocation_keeps_runs, C11_resize_keeps_runs); what is missing for the full statement
-   is their composition through the retry loops of _fsm_blk_allocate_lw, _fsm_trim_tail_lw and _fsm_clear (first-time layout).
-   Not proved: trim_to_last_used, clear_is_init - checked by T2 and the oracle only. *)
-Require Import ZArith List Bool. Require Import IW.Lib.CInt IW.Gen.Facts IW.FS.Bits IW.FS.Bits_proofs IW.FS.Fsm IW.FS.Fsm_hdr_proofs IW.FS.Fsm_proofs.
+   (C11_tree_is_runs: EVERY history from a new file - bitmap growth through both retry loops, _fsm_trim_tail_lw, _fsm_clear,
+   close with trim + reopen; deepening round, nothing _partial any more; the one hypothesis is on the outcome: final bitmap below
+   2^28 bits).  C11_trim_keeps_runs, C11_clear_is_init (which blocks are allocated after a clear), C11_new_file_good,
+   C11_close_reopen_keeps are the pieces.  Not proved: that the file size after trim is the page round-up of the last used
+   block (the index part of trim is proved; the size is compared with the implementation and checked by the oracle on every run,
+   block sizes 64..4096). *)
+Require Import ZArith List Bool. Require Import IW.Lib.CInt IW.Gen.Facts IW.FS.Bits IW.FS.Bits_proofs IW.FS.Fsm IW.FS.Fsm_hdr_proofs IW.FS.Fsm_proofs IW.FS.Fsm_all_proofs.
 Import ListNotations. Local Open Scope Z_scope.
 
 (* _fsm_load_fsm_lw (byte-wise scan with the 0x00 / 0xff shortcuts) emits exactly the maximal zero runs, all bitmaps *)
@@ -22,10 +24,60 @@ Theorem C11_load_builds_tree : forall s, len_z (bm s) = nbits s -> nbits s <= FS
 Proof. exact load_fsm_spec. Qed.
 Print Assumptions C11_load_builds_tree.
 
-Theorem C11_tree_is_runs_partial : forall ops s, Good s -> hdr_current s = true -> ok_run s ops ->
+(* EVERY history from a new file (was C11_tree_is_runs_partial) *)
+Theorem C11_tree_is_runs : forall v bp hl bl mx st ops, fx_lfbk v = true -> 0 <= bp -> bl <= 2 ^ 28 ->
+  fst (open_new_max v bp hl bl mx st) = 0 ->
+  ok_all (snd (open_new_max v bp hl bl mx st)) ops ->
+  bmlen (run (snd (open_new_max v bp hl bl mx st)) ops) * 16 <= FSM_BKEY_MAX ->
+  forall o n, In (n, o) (tree (run (snd (open_new_max v bp hl bl mx st)) ops)) <->
+              is_run (bm (run (snd (open_new_max v bp hl bl mx st)) ops)) o n.
+Proof.
+  intros v bp hl bl mx st ops H1 H2 H3 H4 H5 H6.
+  exact (proj1 (proj2 (proj2 (full_facts _ (every_history_full v bp hl bl mx st ops H1 H2 H3 H4 H5 H6))))).
+Qed.
+Print Assumptions C11_tree_is_runs.
+
+(* histories without bitmap growth (round-1 statement): no size hypothesis; over reachable states instead of [hdr_current] *)
+Theorem C11_tree_is_runs_without_growth : forall ops s, reachable s -> Good s -> ok_run s ops ->
   forall o n, In (n, o) (tree (run s ops)) <-> is_run (bm (run s ops)) o n.
-Proof. exact tree_is_runs_partial. Qed.
-Print Assumptions C11_tree_is_runs_partial.
+Proof. exact tree_is_runs_reachable. Qed.
+Print Assumptions C11_tree_is_runs_without_growth.
+
+(* the pieces: the state predicate of every reachable state ([Full]: index = maximal zero runs, cache entry is a tree entry,
+   geometry, the bitmap's own area marked allocated, header current) across each operation that moves or rebuilds the bitmap *)
+Theorem C11_new_file_good : forall v bp hl bl mx st, fx_lfbk v = true -> 0 <= bp -> bl <= 2 ^ 28 ->
+  fst (open_new_max v bp hl bl mx st) = 0 -> Full (snd (open_new_max v bp hl bl mx st)).
+Proof. exact open_new_full. Qed.
+Print Assumptions C11_new_file_good.
+Theorem C11_trim_keeps_runs : forall s, Full s -> Full (snd (trim_tail s)).
+Proof. exact trim_full. Qed.
+Print Assumptions C11_trim_keeps_runs.
+(* "clearing resets it to the initial state": a clear that returns 0 leaves the header blocks and the blocks of the bitmap area
+   (same length, first page behind the header) allocated and every other block free - the layout of a new file *)
+Theorem C11_clear_is_init : forall s tr, Full s -> fst (clear s tr) = 0 ->
+  Full (snd (clear s tr)) /\
+  (tr = false -> first_cfg s (snd (clear s tr)) (IW_ROUNDUP (hdrlen s) (aunit s)) (bmlen s)).
+Proof. exact clear_full. Qed.
+Print Assumptions C11_clear_is_init.
+Theorem C11_close_reopen_keeps : forall s nt st mm, Full s -> Full (reopen (snd (close s nt)) st mm).
+Proof. intros s nt st mm H. apply reopen_full. apply close_full. exact H. Qed.
+Print Assumptions C11_close_reopen_keeps.
+(* one doubling of the bitmap, as _fsm_blk_allocate_lw asks for it *)
+Theorem C11_growth_keeps_runs : forall s, Full s -> bmlen s * 16 <= FSM_BKEY_MAX ->
+  Full (snd (resize_fsm_bitmap s (shl (bmlen s) 1))) /\
+  (fst (resize_fsm_bitmap s (shl (bmlen s) 1)) = 0 -> Grown s (snd (resize_fsm_bitmap s (shl (bmlen s) 1)))).
+Proof. exact resize_full. Qed.
+Print Assumptions C11_growth_keeps_runs.
+(* _fsm_find_matching_fblock_lw finds an extent whenever one is long enough (and the key can be formed) *)
+Theorem C11_lookup_complete : forall s off len, tsorted (tree s) -> bkey_ok off len = true -> 0 < len ->
+  (exists x, In x (tree s) /\ len <= fst x) -> exists k, fm_lookup s off len = Some k.
+Proof. exact fm_lookup_complete. Qed.
+Print Assumptions C11_lookup_complete.
+Example C11_full_history_exists : fst (open_new_max v_fixed 6 0 0 0 false) = 0 /\
+  ok_all (snd (open_new_max v_fixed 6 0 0 0 false)) full_witness_ops /\
+  (let s := run (snd (open_new_max v_fixed 6 0 0 0 false)) full_witness_ops in
+   (bmlen s, bmoff s) = (8192, 4096) /\ bmlen s * 16 <= FSM_BKEY_MAX).
+Proof. exact full_witness. Qed.
 
 Theorem C11_tree_is_runs_refuted : exists ops, ok_run (fresh v_current false) ops /\
   ~ (forall o n, In (n, o) (tree (run (fresh v_current false) ops)) <-> is_run (bm (run (fresh v_current false) ops)) o n).
@@ -99,12 +151,17 @@ Example C11_full_file_after_relocation :
    (bmoff r, bmlen r, tree r) = (8192, 8192, []) /\ bm r = bm s).
 Proof. exact full_file_after_relocation. Qed.
 
-Theorem C11_reopen_same : forall s st mm, hdr_current s = true ->
+(* the header names the bitmap area in use in every state reachable from a new file (the hypothesis of round 5, discharged) *)
+Theorem C11_header_current_reachable : forall s, reachable s -> hdr_current s = true.
+Proof. exact reachable_hdr_current. Qed.
+Print Assumptions C11_header_current_reachable.
+
+Theorem C11_reopen_same : forall s st mm, reachable s ->
   len_z (bm s) = nbits s -> nbits s <= FSM_BKEY_MAX -> WF s -> fx_lfbk (vr s) = true ->
   Good (reopen s st mm) /\ bm (reopen s st mm) = bm s /\ bmoff (reopen s st mm) = bmoff s /\
   bmlen (reopen s st mm) = bmlen s /\ hdrlen (reopen s st mm) = hdrlen s /\ bpow (reopen s st mm) = bpow s /\
   (forall o n, In (n, o) (tree (reopen s st mm)) <-> is_run (bm s) o n).
-Proof. exact reopen_same. Qed.
+Proof. exact reopen_same_reachable. Qed.
 Print Assumptions C11_reopen_same.
 
 (* _fsm_init_lw moving the bitmap (reload of the tree from the new bitmap, release of the old bitmap area) and
@@ -124,7 +181,7 @@ Print Assumptions C11_relocation_keeps_runs.
 
 Theorem C11_resize_keeps_runs : forall s size, Inv s -> WF s -> fx_lfbk (vr s) = true -> BmArea s ->
   0 <= size < 2 ^ 62 -> IW_ROUNDUP size (aunit s) * 8 <= FSM_BKEY_MAX ->
-  resize_outcome s (resize_fsm_bitmap s size).
+  resize_outcome s size (resize_fsm_bitmap s size).
 Proof. exact resize_keeps_inv. Qed.
 Print Assumptions C11_resize_keeps_runs.
 
